@@ -328,16 +328,23 @@ func (r *Run) storeFault(kind string) *StoreFault {
 func faultFits(fk, op string) bool {
 	switch op {
 	case "get":
-		return fk == "err" || fk == "notexist" || fk == "trunc" || fk == "flip" || fk == "corpus" || fk == "foreign"
+		return fk == "err" || fk == "timeout" || fk == "notexist" || fk == "trunc" || fk == "flip" || fk == "corpus" || fk == "foreign"
 	case "set":
-		return fk == "err" || fk == "err-applied"
+		return fk == "err" || fk == "timeout" || fk == "err-applied"
 	case "delete":
-		return fk == "err"
+		return fk == "err" || fk == "timeout"
 	}
 	return false
 }
 
 var errInjected = errors.New("sim: injected store failure")
+
+func injectedErr(kind string) error {
+	if kind == "timeout" {
+		return context.DeadlineExceeded
+	}
+	return errInjected
+}
 
 var corpus = [][]byte{
 	{}, []byte("null"), []byte("[null]"), []byte("[]"), []byte("{}"), []byte("[{}]"),
@@ -402,11 +409,14 @@ func (c *simConn) Get(key string) ([]byte, error) {
 	f := r.storeFault("get")
 	op := r.beginStoreOp(g, "get", key, nil)
 	op.Seq = r.Sim.Event(g, "st.get", key)
-	if f != nil && f.Kind == "err" {
-		r.fired("store.get.err")
-		op.Fault, op.Err = "err", errInjected.Error()
-		op.SeqRet = r.Sim.Event(g, "st.get.ret", "injected error")
-		return nil, errInjected
+	if f != nil && (f.Kind == "err" || f.Kind == "timeout") {
+		// "timeout": the error a backend reports when its own operation timeout elapses (a fault like any other
+		// for the oracles, but an error value some code may single out)
+		ie := injectedErr(f.Kind)
+		r.fired("store.get." + f.Kind)
+		op.Fault, op.Err = "err", ie.Error()
+		op.SeqRet = r.Sim.Event(g, "st.get.ret", "injected "+f.Kind)
+		return nil, ie
 	}
 	if f != nil && f.Kind == "notexist" {
 		r.fired("store.get.notexist")
@@ -473,11 +483,12 @@ func (c *simConn) Set(key string, value []byte) error {
 	f := r.storeFault("set")
 	op := r.beginStoreOp(g, "set", key, value)
 	op.Seq = r.Sim.Event(g, "st.set", fmt.Sprintf("%s len=%d dg=%s sids=%v", key, len(value), digest(value), op.SIDs))
-	if f != nil && f.Kind == "err" {
-		r.fired("store.set.err")
-		op.Fault, op.Err = "err", errInjected.Error()
-		op.SeqRet = r.Sim.Event(g, "st.set.ret", "injected error")
-		return errInjected
+	if f != nil && (f.Kind == "err" || f.Kind == "timeout") {
+		ie := injectedErr(f.Kind)
+		r.fired("store.set." + f.Kind)
+		op.Fault, op.Err = "err", ie.Error()
+		op.SeqRet = r.Sim.Event(g, "st.set.ret", "injected "+f.Kind)
+		return ie
 	}
 	c.lat("st:set-lat")
 	err := c.inner.Set(key, value)
@@ -505,11 +516,12 @@ func (c *simConn) Delete(key string) error {
 	f := r.storeFault("delete")
 	op := r.beginStoreOp(g, "delete", key, nil)
 	op.Seq = r.Sim.Event(g, "st.del", key)
-	if f != nil && f.Kind == "err" {
-		r.fired("store.delete.err")
-		op.Fault, op.Err = "err", errInjected.Error()
-		op.SeqRet = r.Sim.Event(g, "st.del.ret", "injected error")
-		return errInjected
+	if f != nil && (f.Kind == "err" || f.Kind == "timeout") {
+		ie := injectedErr(f.Kind)
+		r.fired("store.delete." + f.Kind)
+		op.Fault, op.Err = "err", ie.Error()
+		op.SeqRet = r.Sim.Event(g, "st.del.ret", "injected "+f.Kind)
+		return ie
 	}
 	c.lat("st:del-lat")
 	err := c.inner.Delete(key)
